@@ -21,6 +21,8 @@ type Period struct {
 	CloseAtMs int    `json:"close_at_ms"`  // extra offset of the Close inside the cycle
 	CloseAfterSteps int `json:"close_after_steps"` // > 0: Close is injected that many scheduler steps later instead (any point INSIDE the zero-time processing of a cycle)
 	Writes    int    `json:"writes"`       // some traffic while relisting
+	FailAt    int    `json:"fail_at,omitempty"`   // > 0: that list call fails with FailKind
+	FailKind  string `json:"fail_kind,omitempty"`
 	Sim       SimCfg `json:"sim"`
 }
 
@@ -53,6 +55,12 @@ func genC13(g GenCtx) interface{} {
 		sc.CloseAfterSteps = 1 + rng.Intn(400)
 	}
 	sc.Writes = rng.Intn(10)
+	if rng.Intn(6) == 0 {
+		// a list fails: the controller stops (C14) - or, if it does not, it must
+		// not sit there alive without ever listing again
+		sc.FailAt = 1 + rng.Intn(sc.Periods)
+		sc.FailKind = pick(rng, "error", "error-timeout", "error-canceled", "error-canceled-bare", "error-deadline-bare")
+	}
 	// consumption delay: the controller loop / lister / ticker starved by a drawn factor
 	sc.Sim = SimCfg{Strategy: randStrategy(rng, []string{"Create>c.run", "newLister>l.run", "newTicker>t.run", "_lister.list>func", "newCache>c.run"}),
 		NewTimers: rng.Intn(3) == 0, PermuteMaps: true, MaxSteps: 120000, EstSteps: 2000}
@@ -72,6 +80,10 @@ func runC13(sci interface{}) {
 	srv := world.NewServer("pod")
 	srv.ListLatency = [2]time.Duration{ms(sc.LatPreMs), ms(sc.LatPostMs)}
 	srv.VaryLatency = sc.VaryLat
+	if sc.FailAt > 0 {
+		srv.F = world.NewFaults(nil)
+		srv.F.ListScript[sc.FailAt] = sc.FailKind
+	}
 	h := world.NewH(srv, world.FilterSpec{}, per, false)
 	h.Start()
 	horizon := time.Duration(sc.Periods) * per
@@ -84,6 +96,12 @@ func runC13(sci interface{}) {
 		checkListDiscipline(srv, per)
 	}
 	if detsim.IsClosed(h.Ctrl.Done()) {
+		if sc.FailAt > 0 && len(srv.Lists) >= sc.FailAt {
+			// fail-stop after the scripted list failure: nothing may be left behind
+			detsim.Settle()
+			checkNoLeak()
+			return
+		}
 		detsim.Fail("controller-died", "controller shut down although no list failed: %v", h.Ctrl.Error())
 	}
 	stalls := sc.Sim.Strategy.StallPermille > 0
@@ -102,6 +120,11 @@ func runC13(sci interface{}) {
 	bound := 2*(lat+per+per/10) + time.Millisecond
 	t := detsim.NewTimerAt("deadline", bound)
 	<-t.C
+	if sc.FailAt > 0 && len(srv.Lists) >= sc.FailAt && detsim.IsClosed(h.Ctrl.Done()) {
+		detsim.Settle()
+		checkNoLeak()
+		return
+	}
 	if len(srv.Lists) <= n0 {
 		detsim.Fail("relisting-stopped", "no new list call within %v after %d calls (period %v, latency %v, %d in flight)\n%s", bound, n0, per, lat, inflight, srv.Summary())
 	}
